@@ -106,7 +106,19 @@ def table(ts, item, cfgty, target, problems, where):
                         after = s + 7
                         break
                 if m is None:
-                    problems.append(f'{where}: `let (map, cfg) = value;` not found')
+                    # the pair destructured in the parameter list: `fn from((map, cfg): (..)) -> Self {`
+                    for s in range(len(body) - 8):
+                        if body[s] == 'fn' and body[s + 1] == 'from' and body[s + 2:s + 4] == ['(', '('] and body[s + 5] == ',' and body[s + 7] == ')' and body[s + 8] == ':':
+                            m = (body[s + 4], body[s + 6])
+                            after = s + 9
+                            # past the signature: `-> Self {` opens the function body
+                            for q in range(s, len(body) - 2):
+                                if body[q:q + 3] == ['->', 'Self', '{']:
+                                    after = q + 3
+                                    break
+                            break
+                if m is None:
+                    problems.append(f'{where}: neither `let (map, cfg) = value;` nor `fn from((map, cfg): ..)` found')
                     return []
                 mp, cfg = m
                 # Self { ... }
